@@ -10,10 +10,23 @@ from .spec import Contract
 
 class CallMixin:
     SPEC_FORMS = {"old", "forall", "exists", "implies", "ite", "fresh", "at_loop", "allocated", "iff",
-                  "typeis", "let", "store", "select", "empty", "setadd", "setdel", "dom", "wrap_int", "cast", "pos", "cut", "dtype", "classid", "store_all_zero"}
+                  "typeis", "let", "store", "select", "empty", "setadd", "setdel", "dom", "wrap_int", "cast", "pos", "cut", "dtype", "classid", "store_all_zero", "dynint", "dynfloat", "fp32", "isinf", "isnan", "fpeq", "identity_map", "shift_insert", "shift_up"}
 
     def ev_Call(self, e, st):
         f = e.func
+        if isinstance(f, ast.Name) and f.id == "lemma" and self.ghost_mode and not self.spec_mode:
+            # ghost statement lemma(P): P becomes an obligation here and may be used afterwards (a cut)
+            g = self.truth(self.sv(e.args[0], st))
+            self._lemma_n = getattr(self, "_lemma_n", 0) + 1
+            label = e.args[1].value if len(e.args) > 1 and isinstance(e.args[1], ast.Constant) else "lemma"
+            saved = self.ghost_mode
+            self.ghost_mode = 0
+            try:
+                self.oblige(st, f"{self.func_key}/lemma[{label}]", "lemma", g, getattr(self, "_hook_node", None), self.cur_tags(), ast.unparse(e.args[0])[:200])
+            finally:
+                self.ghost_mode = saved
+            st.assume(g)
+            return [(st, self.const_val(None))]
         if isinstance(f, ast.Name):
             if f.id in self.SPEC_FORMS and (self.spec_mode or self.ghost_mode):
                 return [(st, self.spec_form(f.id, e, st))]
@@ -52,6 +65,19 @@ class CallMixin:
 
     def dispatch_call(self, fv: Val, args, kwargs, st, node):
         k = fv.t[0]
+        if k == "builtin" and self.contract is not None and not self.spec_mode and not self.ghost_mode and len(st.frames) == 1:
+            hook = self.contract.ghost_after.get(f"builtin:{fv.conc}")
+            if hook:
+                out = []
+                for s2, r in self.lib.call_builtin(fv.conc, args, kwargs, st, node):
+                    if isinstance(r, Exc):
+                        out.append((s2, r))
+                        continue
+                    s2.locals["_ret"] = r
+                    for s3 in self.exec_ghost(hook, s2):
+                        s3.locals.pop("_ret", None)
+                        out.append((s3, r))
+                return out
         if k == "boundmethod":
             base, name = fv.z
             bk = base.t[0]
@@ -76,6 +102,8 @@ class CallMixin:
     def call_member(self, base: Val, cls: str, name: str, args, kwargs, st, node, is_property=False):
         for c in self.class_chain(cls):
             con = self.reg.find_contract(f"{c}.{name}")
+            if con is None and f"{c}.{name}" in self.reg.variants:
+                con = self.pick_variant(self.reg.variants[f"{c}.{name}"], args, node)
             if con is not None:
                 fm = self.src.find_method(cls, name)
                 return self.apply_contract(con, base, args, kwargs, st, node, fm)
@@ -89,6 +117,20 @@ class CallMixin:
             if fm is not None and fm[1] == c:
                 break
         raise Unsupported(f"call to {cls}.{name}: no contract and not marked inline", node, self.path)
+
+    def pick_variant(self, variants, args, node):
+        """the contract variant whose parameter types fit the static types of the arguments"""
+        for con in variants:
+            ptypes = [t for n, t in con.params.items() if n != "self"]
+            ok = len(ptypes) >= len(args)
+            for a, t in zip(args, ptypes):
+                if a.t == t or (a.t[0] == t[0] and a.t[0] in ("list", "set", "ref")) or (a.t[0] == "none" and t[0] == "none"):
+                    continue
+                ok = False
+                break
+            if ok:
+                return con
+        raise Unsupported(f"no contract variant of {variants[0].qualname} fits argument types {[tstr(a.t) for a in args]}", node, self.path)
 
     def call_function(self, key: str, args, kwargs, st, node):
         mn, fn = key.split(":")
@@ -183,6 +225,13 @@ class CallMixin:
                 st.written.add(("glob", name))
             return
         cls, field = item.split(".")
+        if cls.startswith("$"):
+            ty = self.heap_types.get((cls, field)) or ("map", STR, {"int": INT, "float": FLOAT, "str": STR}[field])
+            self.heap_arr(st, cls, field, ty)
+            st.heap[(cls, field)] = z3.Const(fresh_name(f"H_{cls}.{field}"), z3.ArraySort(self.S.Ref, self.sort(ty)))
+            if st.written is not None:
+                st.written.add(("heap", cls, field))
+            return
         if field == "*":
             d = self.class_decl(cls)
             for f in list(d.fields) + list(d.ghost):
@@ -231,6 +280,26 @@ class CallMixin:
             self._bind_state = None
         if con.handler is not None:
             return con.handler(self, st, env, node)
+        if getattr(con, "returns_expr", None) is not None:
+            # pure getter defined by an expression over the (ghost) state: no fresh symbol, usable under binders
+            sp0 = st.fork()
+            sp0.frames = [dict(env)]
+            v0 = self.sv(ast.parse(con.returns_expr, mode="eval").body, sp0)
+            if getattr(con, "result_choices", None):
+                v0.choices = list(con.result_choices)
+            for cl in con.ensures:
+                sp0.frames[-1]["result"] = v0
+                st.assume(self.truth(self.sv(cl.tree, sp0))) if not self.spec_mode else None
+            if v0.choices and not self.spec_mode and not self.discovery:
+                # a value from a small set of constants (an alignment): one path per constant keeps the arithmetic linear
+                outs = []
+                for c in v0.choices:
+                    if self.feasible(st, v0.z == c):
+                        s2 = st.fork()
+                        s2.assume(v0.z == c)
+                        outs.append((s2, Val(INT, z3.IntVal(c), conc=c)))
+                return outs
+            return [(st, v0)]
         if con.ghost_entry:
             # ghost locals of the callee (e.g. its delivery id) are defined by its ghost entry code
             gs = st.fork()
@@ -275,6 +344,8 @@ class CallMixin:
             res = None
             if exc_cls is None and con.returns is not None:
                 res = self.fresh(con.returns, "ret")
+                if getattr(con, "result_choices", None):
+                    res.choices = list(con.result_choices)
                 if con.returns[0] == "ref" and getattr(con, "returns_nonnull", True):
                     pass
                 sp.frames[-1]["result"] = res
@@ -457,6 +528,35 @@ class CallMixin:
             x = self.sv(a[1], st)
             kpart = a[2].value if len(a) > 2 else 0
             return Val(INT, parts[kpart][1](self.coerce(x, L.t[1]).z))
+        if name in ("dynint", "dynfloat"):
+            o, nm = self.sv(a[0], st), self.sv(a[1], st)
+            kind = "int" if name == "dynint" else "float"
+            ty = INT if kind == "int" else FLOAT
+            arr = self.heap_arr(st, "$dyn", kind, ("map", STR, ty))
+            return Val(ty, z3.Select(z3.Select(arr, o.z), nm.z))
+        if name == "fp32":
+            v = self.coerce(self.sv(a[0], st), FLOAT)
+            return Val(FLOAT, z3.fpToFP(z3.RNE(), z3.fpToFP(z3.RNE(), v.z, z3.Float32()), self.S.Float))
+        if name == "isinf":
+            return Val(BOOL, z3.fpIsInf(self.coerce(self.sv(a[0], st), FLOAT).z))
+        if name == "isnan":
+            return Val(BOOL, z3.fpIsNaN(self.coerce(self.sv(a[0], st), FLOAT).z))
+        if name == "fpeq":
+            x, y = self.coerce(self.sv(a[0], st), FLOAT).z, self.coerce(self.sv(a[1], st), FLOAT).z
+            return Val(BOOL, z3.Or(x == y, z3.And(z3.fpIsNaN(x), z3.fpIsNaN(y))))
+        if name == "identity_map":
+            i = z3.Int(fresh_name("i"))
+            return Val(("map", INT, INT), z3.Lambda([i], i))
+        if name == "shift_insert":
+            # shift_insert(m, pos, v): the map of a sequence after inserting value v at position pos
+            m, pos, v = self.sv(a[0], st), self.coerce(self.sv(a[1], st), INT), self.coerce(self.sv(a[2], st), INT)
+            i = z3.Int(fresh_name("i"))
+            return Val(m.t, z3.Lambda([i], z3.If(i < pos.z, z3.Select(m.z, i), z3.If(i == pos.z, v.z, z3.Select(m.z, i - 1)))))
+        if name == "shift_up":
+            # shift_up(m, pos): every value >= pos is incremented (positions of elements after an insertion at pos)
+            m, pos = self.sv(a[0], st), self.coerce(self.sv(a[1], st), INT)
+            i = z3.Int(fresh_name("i"))
+            return Val(m.t, z3.Lambda([i], z3.If(z3.Select(m.z, i) >= pos.z, z3.Select(m.z, i) + 1, z3.Select(m.z, i))))
         if name == "store_all_zero":
             return Val(("map", INT, INT), z3.K(z3.IntSort(), z3.IntVal(0)))
         if name == "dtype":
